@@ -253,6 +253,7 @@ package adt
 //@   may_panic
 //@   nocheck bounds frame
 //@   requires c != nil && c.errs == nil && scalarV(left) && scalarV(right) && wfV(left) && wfV(right)
+//@   requires cmpOp(op)
 //@   ensures [numcmp] isNumV(left) && isNumV(right) && cmpOp(op) ==> isBoolV(result) && result.(*Bool).B == cmpOK(op, cmpNums(left, right))
 //@   ensures [strcmp] isStrV(left) && isStrV(right) && cmpOp(op) ==> isBoolV(result) && result.(*Bool).B == cmpOK(op, lexcmp(strVal(left), strVal(right)))
 //@   ensures [bytescmp] isBytesV(left) && isBytesV(right) && cmpOp(op) ==> isBoolV(result) && result.(*Bool).B == cmpOK(op, lexcmp(bytesVal(left), bytesVal(right)))
